@@ -6,23 +6,24 @@
 # not disturbed while a background run is reading it.
 set -u
 PATCH="$(realpath "$1")"; shift
+SCR=$(mktemp -d /tmp/evalmut-out.XXXXXX)
 if [ "${EVAL_WORKTREE:-0}" = "1" ]; then
   WT=$(mktemp -d /tmp/evalmut.XXXXXX); rmdir "$WT"
   git -C /repo worktree add -q --detach "$WT" HEAD || exit 2
-  trap 'git -C /repo worktree remove --force "$WT"' EXIT
+  trap 'git -C /repo worktree remove --force "$WT"; rm -rf "$SCR"' EXIT
   git -C "$WT" apply "$PATCH" || { echo "evalmutant: patch does not apply" >&2; exit 2; }
   export VERIF_REPO="$WT"
 else
   cd /repo || exit 2
   if ! git diff --quiet; then echo "evalmutant: /repo working tree is not clean" >&2; exit 2; fi
   git apply "$PATCH" || { echo "evalmutant: patch does not apply" >&2; exit 2; }
-  trap 'git -C /repo checkout -- .' EXIT
+  trap 'git -C /repo checkout -- .; rm -rf "$SCR"' EXIT
 fi
 cd /verif
-export VERIF_EVIDENCE_DIR=/tmp/evalmut-evidence VERIF_REPLAYS_DIR=/tmp/evalmut-replays
+export VERIF_EVIDENCE_DIR=$SCR/evidence VERIF_REPLAYS_DIR=$SCR/replays
 mkdir -p $VERIF_EVIDENCE_DIR
 for p in "$@"; do
-  rm -rf /tmp/evalmut-replays
+  rm -rf $SCR/replays
   out=$(VERIF_SEED=${VERIF_SEED:-1} ./check $p ${TIER:-quick} 2>&1); rc=$?
   first=$(echo "$out" | grep -A1 '^VIOLATION' | sed -n 2p | cut -c1-220)
   echo "$p rc=$rc $(echo "$out" | grep '^check ' | sed 's/^check [^:]*: //' | cut -c1-70) | $first"
